@@ -365,6 +365,12 @@ func vfNewPeer(name string, nw transport.Net, opts ...vfPeerOpt) (*vfPeer, error
 	se.LoggerFactory = vfSilentLoggers()
 	if nw != nil {
 		se.SetNet(nw)
+	} else {
+		// never a real socket inside a bubble (a goroutine in a network poll is not durably
+		// blocked and fake time would stop): an unrouted virtual host
+		if vn, err := vnet.NewNet(&vnet.NetConfig{StaticIPs: []string{"10.250.0.2"}}); err == nil {
+			se.SetNet(vn)
+		}
 	}
 	se.SetICEMulticastDNSMode(1) // disabled
 	se.SetNetworkTypes([]NetworkType{NetworkTypeUDP4})
@@ -431,10 +437,27 @@ func vfSettle(d time.Duration) {
 	synctest.Wait()
 }
 
-// vfDrain waits (in fake time, bounded) until the operations queues of the given peers are empty.
+// vfDrain waits (in fake time, bounded) until the operations queues of the given peers have run
+// everything queued so far. IsEmpty() alone is not enough (an operation that is running, e.g.
+// startTransports waiting for ICE, is no longer in the list), so the queue's own Done() is used,
+// repeated because an emptying chain may enqueue the negotiation-needed check.
 func vfDrain(max time.Duration, peers ...*vfPeer) bool {
-	step := 20 * time.Millisecond
-	for el := time.Duration(0); ; el += step {
+	ok := true
+	for round := 0; round < 4; round++ {
+		for _, p := range peers {
+			done := make(chan struct{})
+			go func(p *vfPeer) { p.pc.ops.Done(); close(done) }(p)
+			if !vfWaitFor(max, func() bool {
+				select {
+				case <-done:
+					return true
+				default:
+					return false
+				}
+			}) {
+				ok = false
+			}
+		}
 		synctest.Wait()
 		idle := true
 		for _, p := range peers {
@@ -443,16 +466,10 @@ func vfDrain(max time.Duration, peers ...*vfPeer) bool {
 			}
 		}
 		if idle {
-			return true
-		}
-		if el >= max {
-			return false
-		}
-		time.Sleep(step)
-		if step < 500*time.Millisecond {
-			step *= 2
+			break
 		}
 	}
+	return ok
 }
 
 // vfWaitFor polls cond in fake time.
